@@ -12,6 +12,7 @@ package main
 //   3 ws layer: concurrent writers on both sides while either side closes
 //   4 ws client Stop while the reconnection goroutine is dialling, the dial then fails (finding F17)
 //   5 SendRequest racing Stop on a charge point (finding F10; evaluated for C16)
+//   6 concurrent senders on a charge point whose connection keeps being dropped (finding F30; evaluated for C07)
 // output: [1, callbacks seen] when the scenario ended; [-7] the process died (panic in a library goroutine); [-8] hung
 
 import (
@@ -152,7 +153,7 @@ func c19Stack(v2 bool, seed int64, size int) []int64 {
 		c := c
 		for j := 0; j < g; j++ {
 			pause := time.Duration(rng.Intn(300)) * time.Microsecond
-			wg.Add(2)
+			wg.Add(1)
 			go func(j int) { // client -> server
 				defer wg.Done()
 				for i := 0; i < rounds; i++ {
@@ -161,14 +162,20 @@ func c19Stack(v2 bool, seed int64, size int) []int64 {
 					time.Sleep(pause)
 				}
 			}(j)
-			go func(j int) { // server -> client
-				defer wg.Done()
-				for i := 0; i < rounds; i++ {
-					_ = sendTo(c.id, i+j, cb)
-					time.Sleep(pause)
-				}
-			}(j)
 		}
+		wg.Add(1)
+		go func() { // server -> client: one request at a time per client (many at once is finding F3 of C07)
+			defer wg.Done()
+			for i := 0; i < rounds; i++ {
+				done := make(chan struct{})
+				if err := sendTo(c.id, i, func(r ocpp.Response, e error) { cb(r, e); close(done) }); err == nil {
+					select {
+					case <-done:
+					case <-time.After(time.Second):
+					}
+				}
+			}
+		}()
 	}
 	// connection events while the traffic runs: the server drops connections, the clients reconnect
 	wg.Add(1)
@@ -338,7 +345,7 @@ func c19ErrC() []int64 {
 		return []int64{-5}
 	}
 	_ = conn.UnderlyingConn().Close() // forced disconnect: the client starts to reconnect
-	p = raw.nextDial(2 * time.Second)  // ... and is now inside a dial
+	p = raw.nextDial(2 * time.Second) // ... and is now inside a dial
 	if p == nil {
 		return []int64{-6}
 	}
@@ -390,6 +397,66 @@ func c19SendStop(seed int64) []int64 {
 	return []int64{1, 0}
 }
 
+// c19SendDisconnect (finding F30, property C07): concurrent senders on a charge point while its connection is
+// dropped again and again; every send must return.
+func c19SendDisconnect(seed int64) []int64 {
+	wsSrv := ws.NewServer()
+	srv := ocppj.NewServer(wsSrv, nil, nil, profiles.V16()...)
+	cs := ocpp16.NewCentralSystem(srv, wsSrv)
+	rec := &stubs.Recorder{Outcome: stubs.OutValid, Seed: seed}
+	stubs.Install16CS(cs, rec, nil)
+	go cs.Start(0, "/{ws}")
+	port := c19WaitAddr(wsSrv)
+	if port == 0 {
+		return []int64{-3}
+	}
+	wc := ws.NewClient()
+	wc.SetTimeoutConfig(c19ClientCfg())
+	cdisp := ocppj.NewDefaultClientDispatcher(ocppj.NewFIFOClientQueue(0))
+	cdisp.SetTimeout(50 * time.Millisecond)
+	jc := ocppj.NewClient("cp0", wc, cdisp, nil, profiles.V16()...)
+	cp := ocpp16.NewChargePoint("cp0", jc, wc)
+	stubs.Install16CP(cp, rec, nil)
+	if err := cp.Start(fmt.Sprintf("ws://127.0.0.1:%d", port)); err != nil {
+		return []int64{-4}
+	}
+	var wg sync.WaitGroup
+	var halt int32
+	for j := 0; j < 4; j++ {
+		wg.Add(1)
+		go func() {
+			defer wg.Done()
+			for atomic.LoadInt32(&halt) == 0 {
+				_ = cp.SendRequestAsync(core16.NewHeartbeatRequest(), func(ocpp.Response, error) {})
+			}
+		}()
+	}
+	for i := 0; i < 12; i++ {
+		time.Sleep(time.Duration(1+(int(seed)+i)%3) * time.Millisecond)
+		_ = wsSrv.StopConnection("cp0", websocket.CloseError{Code: websocket.CloseGoingAway, Text: "x"})
+		for w := 0; w < 200 && !cp.IsConnected(); w++ {
+			time.Sleep(250 * time.Microsecond)
+		}
+	}
+	atomic.StoreInt32(&halt, 1)
+	fin := make(chan struct{})
+	go func() { wg.Wait(); close(fin) }()
+	select {
+	case <-fin:
+	case <-time.After(5 * time.Second):
+		return []int64{-8}
+	}
+	stopped := make(chan struct{})
+	go func() { cp.Stop(); close(stopped) }()
+	select {
+	case <-stopped:
+	case <-time.After(5 * time.Second):
+		return []int64{-9}
+	}
+	cs.Stop()
+	return []int64{1, 0}
+}
+
 func c19Eval(in []int64) []int64 {
 	if len(in) < 3 {
 		return []int64{-1}
@@ -407,6 +474,8 @@ func c19Eval(in []int64) []int64 {
 		return c19ErrC()
 	case 5:
 		return c19SendStop(in[1])
+	case 6:
+		return c19SendDisconnect(in[1])
 	}
 	return []int64{-1}
 }
